@@ -226,7 +226,7 @@ def name_pool(rng, deep):
 
 
 CFG_NAMES = ["nordicsemi.com", "nRF54H20_sample_root", "nRF54H20_sample_app", "nRF54H20_sample_rad", "nRF54H20_nordic_top",
-             "nRF9280_sample_app", "acme.example", "root_custom_class", "app custom", "é€ radio", "名前", "", "x" * 300, "y", "0x1F", "123"]
+             "nRF9280_sample_app", "acme.example", "root_custom_class", "app custom", "é€ radio", "名前", "", "x" * 300, "y", "0x1F", "123", "acme#1", "acme#2", "a=b", " lead", "trail ", "semi;colon", "UPPER.Example.COM"]
 
 
 def gen_config(rng):
